@@ -149,7 +149,8 @@ def gen_call(rng, pidx, p, o, entries=None):
     c["has_opname"] = rng.random() < 0.4
     mode = rng.choice(["call", "execute"]) if o.get("mode") is None else o["mode"]
     c["capture_tl"] = mode == "execute" and rng.random() < o.get("p_timeline", 0.4)
-    entry = rng.choice(entries or o.get("entries", ["retry"]))
+    # Retry / AsyncRetry directly, or through their context manager (which binds the per-call options once)
+    entry = rng.choice(entries or o.get("entries", ["retry", "retry", "retry", "retry.ctx"]))
     is_async = rng.random() < o.get("p_async", 0.5)
     if entry in ENTRIES_CALL_ONLY:
         mode = "call"
